@@ -167,8 +167,8 @@ Fixpoint run (sc : script) (s : tv) (p : nat) (h : list op) : list (op * outcome
   | o :: r => let x := step sc s p o in (o, x) :: run sc (st x) (pos x) r
   end.
 
-Definition final (s : tv) (p : nat) (t : list (op * outcome)) : tv * nat :=
-  match rev t with [] => (s, p) | (_, x) :: _ => (st x, pos x) end.
+Fixpoint final (s : tv) (p : nat) (t : list (op * outcome)) : tv * nat :=
+  match t with [] => (s, p) | (_, x) :: t' => final (st x) (pos x) t' end.
 
 Definition fresh (r : option bytes) : tv := mkTv r None None.   (* NewTypedValue over a store holding r *)
 
@@ -198,10 +198,6 @@ Definition spec (r : option bytes) (o : op) : res * option bytes * option (V * b
       | Some b => match dec b with Some v => go v true | None => (RErr EDecode, r, None) end
       end
   end.
-
-(* does the call consume a fault between positions p and q? *)
-Fixpoint any_fault (sc : script) (p n : nat) : bool :=
-  match n with 0 => false | S k => sc p || any_fault sc (S p) k end.
 
 (* the write a completed call performed, judged from outside (op, result, callback arguments):
    Some r' = the raw key was set to r' *)
